@@ -105,4 +105,201 @@ theorem ranked_replace {info : List QI} {q o : QI} (hu : Uniq info) (hnz : ∀ c
         · have ha' : ¬ Anc info q.name c.parent := fun h => ha (hiff.mpr h)
           simp [ha, ha']; exact hlt
 
+
+/-! ### preservation of the structural invariant -/
+
+theorem forest_init : Forest init := by
+  refine ⟨by simp [init], by simp [init], by simp [init], ⟨fun _ => 0, rfl, by simp [init]⟩, by simp [init]⟩
+
+theorem forest_add {d : Nat} {s : Topo} {q : QI} {sw : Bool} (hF : Forest s) (hq0 : q.name ≠ 0)
+    (h : (validAdd d s q sw).2 = true) : Forest (validAdd d s q sw).1 := by
+  obtain ⟨hfresh, _, _, htopo, hst⟩ := validAdd_true h
+  rw [hst]
+  have hfresh := find_isSome_false hfresh
+  obtain ⟨_, _, hcase⟩ := topoCheck_true hq0 htopo
+  -- the new quota's parent: root, or a recorded quota marked is-parent
+  have hpar : q.parent = 0 ∨ ∃ p ∈ s.info, p.name = q.parent ∧ p.isParent = true := by
+    rcases hcase with ⟨h0, _⟩ | ⟨hpi, _, _⟩
+    · exact Or.inl h0
+    · by_cases h0 : q.parent = 0
+      · exact Or.inl h0
+      · obtain ⟨p, hf, hip, _⟩ := parentInfoOK_true h0 hpi
+        exact Or.inr ⟨p, (find_some hf).1, (find_some hf).2, hip⟩
+  have hself : q.parent ≠ q.name := by
+    rcases hpar with h0 | ⟨p, hp, hpn, _⟩
+    · rw [h0]; exact Ne.symm hq0
+    · intro e; exact hfresh p hp (hpn.trans e)
+  -- nobody recorded points at the fresh name
+  have hnopar : ∀ c ∈ s.info, c.parent ≠ q.name := by
+    intro c hc e
+    rcases hF.parentOK c hc with h0 | ⟨p, hp, hpn, _⟩
+    · exact hq0 (e ▸ h0)
+    · exact hfresh p hp (hpn.trans e)
+  refine ⟨?_, ?_, ?_, ?_, ?_⟩
+  · simp only [addState, List.map_cons, List.nodup_cons]
+    refine ⟨?_, hF.nodup⟩
+    intro hm
+    obtain ⟨c, hc, hcn⟩ := List.mem_map.mp hm
+    exact hfresh c hc hcn
+  · intro c hc
+    simp only [addState, List.mem_cons] at hc
+    rcases hc with rfl | hc
+    · exact hq0
+    · exact hF.nonzero c hc
+  · intro c hc
+    simp only [addState, List.mem_cons] at hc ⊢
+    rcases hc with rfl | hc
+    · rcases hpar with h0 | ⟨p, hp, hpn, hip⟩
+      · exact Or.inl h0
+      · exact Or.inr ⟨p, Or.inr hp, hpn, hip⟩
+    · rcases hF.parentOK c hc with h0 | ⟨p, hp, hpn, hip⟩
+      · exact Or.inl h0
+      · exact Or.inr ⟨p, Or.inr hp, hpn, hip⟩
+  · exact ranked_add hF.ranked hq0 hfresh hnopar hself
+  · intro p c
+    simp only [addState, List.mem_cons, List.mem_filter, Prod.mk.injEq, bne_iff_ne, ne_eq]
+    constructor
+    · rintro (⟨rfl, rfl⟩ | ⟨hk, _⟩)
+      · exact ⟨q, Or.inl rfl, rfl, rfl⟩
+      · obtain ⟨c', hc', h1, h2⟩ := (hF.kidsOK p c).mp hk
+        exact ⟨c', Or.inr hc', h1, h2⟩
+    · rintro ⟨c', (rfl | hc'), h1, h2⟩
+      · exact Or.inl ⟨h2.symm, h1.symm⟩
+      · refine Or.inr ⟨(hF.kidsOK p c).mpr ⟨c', hc', h1, h2⟩, ?_⟩
+        intro e; exact hnopar c' hc' (h2.trans e)
+
+theorem forest_upd {d : Nat} {s : Topo} {q : QI} {sw hp : Bool} (hF : Forest s)
+    (h : (validUpdate d s q sw hp).2 = true) : Forest (validUpdate d s q sw hp).1 := by
+  rcases validUpdate_true h with hst | ⟨o, hfo, hq0, _, _, htopo, hst⟩
+  · rw [hst]; exact hF
+  rw [hst]
+  have hu := uniq_of_nodup hF.nodup
+  obtain ⟨ho, hon⟩ := find_some hfo
+  obtain ⟨hipc, _, hcase⟩ := topoCheck_true hq0 htopo
+  -- facts about the requested parent
+  have hpar : q.parent = 0 ∨ ∃ p, find s.info q.parent = some p ∧ p.isParent = true ∧
+      hitsUp s.info q.name (s.info.length + 1) q.parent = false := by
+    rcases hcase with ⟨h0, _⟩ | ⟨hpi, _, _⟩
+    · exact Or.inl h0
+    · by_cases h0 : q.parent = 0
+      · exact Or.inl h0
+      · exact Or.inr (parentInfoOK_true h0 hpi)
+  have hself : q.parent ≠ q.name := by
+    rcases hpar with h0 | ⟨p, _, _, hw⟩
+    · rw [h0]; exact Ne.symm hq0
+    · intro e
+      rw [e] at hw
+      unfold hitsUp at hw
+      simp [hq0] at hw
+  -- a quota that keeps children stays marked is-parent
+  have hkeep : ∀ c ∈ s.info, c.parent = q.name → q.isParent = true := by
+    intro c hc hcp
+    have hk : (q.name, c.name) ∈ s.kids := (hF.kidsOK _ _).mpr ⟨c, hc, rfl, hcp⟩
+    have hhk : hasKids s o.name = true := by
+      unfold hasKids
+      exact List.any_eq_true.mpr ⟨(q.name, c.name), hk, by simp [hon]⟩
+    have hoip : o.isParent = true := by
+      rcases hF.parentOK c hc with h0 | ⟨p, hp', hpn, hip⟩
+      · exact absurd (hcp ▸ h0) hq0
+      · have : p = o := hu p hp' o ho (by rw [hpn, hcp, hon])
+        exact this ▸ hip
+    cases hqi : q.isParent with
+    | true => rfl
+    | false =>
+      unfold isParentChangeOK at hipc
+      simp [hoip, hqi, hhk] at hipc
+  refine ⟨?_, ?_, ?_, ?_, ?_⟩
+  · simp only [updState]; rw [replace_names]; exact hF.nodup
+  · intro c hc
+    rcases mem_replace hc with ⟨rfl, _⟩ | ⟨hc, _⟩
+    · exact hq0
+    · exact hF.nonzero c hc
+  · -- parents exist and are marked
+    intro c hc
+    rcases mem_replace hc with ⟨hcq, _⟩ | ⟨hc, hcn⟩
+    · subst hcq
+      rcases hpar with h0 | ⟨p, hf, hip, _⟩
+      · exact Or.inl h0
+      · right
+        obtain ⟨hp', hpn⟩ := find_some hf
+        exact ⟨p, mem_replace_of_ne hp' (by rw [hpn]; exact hself), hpn, hip⟩
+    · rcases hF.parentOK c hc with h0 | ⟨p, hp', hpn, hip⟩
+      · exact Or.inl h0
+      · right
+        by_cases hpq : p.name = q.name
+        · exact ⟨q, mem_replace_self ho hon, by rw [← hpq, hpn], hkeep c hc (by rw [← hpn, hpq])⟩
+        · exact ⟨p, mem_replace_of_ne hp' hpq, hpn, hip⟩
+  · exact ranked_replace hu hF.nonzero hF.ranked ho hon (by
+      rcases hpar with h0 | ⟨_, _, _, hw⟩
+      · exact Or.inl h0
+      · exact Or.inr hw)
+  · intro p c
+    have hbase := hF.kidsOK p c
+    simp only [updState]
+    by_cases hpp : o.parent = q.parent
+    · simp only [hpp, bne_self_eq_false, Bool.false_eq_true, if_false]
+      rw [hbase]
+      constructor
+      · rintro ⟨c', hc', h1, h2⟩
+        by_cases hcn : c'.name = q.name
+        · have : c' = o := hu c' hc' o ho (hcn.trans hon.symm)
+          exact ⟨q, mem_replace_self ho hon, by rw [← h1, hcn], by rw [← h2, this, hpp]⟩
+        · exact ⟨c', mem_replace_of_ne hc' hcn, h1, h2⟩
+      · rintro ⟨c', hc', h1, h2⟩
+        rcases mem_replace hc' with ⟨hcq, _⟩ | ⟨hc'', _⟩
+        · subst hcq; exact ⟨o, ho, hon.trans h1, hpp.trans h2⟩
+        · exact ⟨c', hc'', h1, h2⟩
+    · have hb : (o.parent != q.parent) = true := by simpa using hpp
+      simp only [hb, if_true, List.mem_cons, List.mem_filter, Prod.mk.injEq, bne_iff_ne, ne_eq]
+      constructor
+      · rintro (⟨rfl, rfl⟩ | ⟨hk, hne⟩)
+        · exact ⟨q, mem_replace_self ho hon, rfl, rfl⟩
+        · obtain ⟨c', hc', h1, h2⟩ := hbase.mp hk
+          have hcn : c'.name ≠ q.name := by
+            intro e
+            have : c' = o := hu c' hc' o ho (e.trans hon.symm)
+            apply hne; subst this; exact ⟨h2.symm, h1.symm.trans e⟩
+          exact ⟨c', mem_replace_of_ne hc' hcn, h1, h2⟩
+      · rintro ⟨c', hc', h1, h2⟩
+        rcases mem_replace hc' with ⟨hcq, _⟩ | ⟨hc'', hcn⟩
+        · left; subst hcq; exact ⟨h2.symm, h1.symm⟩
+        · right; refine ⟨hbase.mpr ⟨c', hc'', h1, h2⟩, ?_⟩
+          rintro ⟨_, e⟩; exact hcn (h1.trans e)
+
+theorem forest_del {s : Topo} {name : Nat} {lp : Bool} (hF : Forest s)
+    (h : (validDelete s name lp).2 = true) : Forest (validDelete s name lp).1 := by
+  obtain ⟨o, hfo, hnk, _, hst⟩ := validDelete_true h
+  rw [hst]
+  have hu := uniq_of_nodup hF.nodup
+  obtain ⟨ho, hon⟩ := find_some hfo
+  have hnokid := hasKids_false hnk
+  have hnochild : ∀ c ∈ s.info, c.parent ≠ name := by
+    intro c hc e
+    exact hnokid c.name ((hF.kidsOK _ _).mpr ⟨c, hc, rfl, e⟩)
+  have hmem : ∀ c, c ∈ (delState s o name).info ↔ c ∈ s.info ∧ c.name ≠ name := by
+    intro c; simp [delState, List.mem_filter]
+  refine ⟨?_, ?_, ?_, ?_, ?_⟩
+  · simp only [delState]
+    exact List.Nodup.sublist ((List.filter_sublist).map _) hF.nodup
+  · intro c hc; exact hF.nonzero c ((hmem c).mp hc).1
+  · intro c hc
+    obtain ⟨hc, hcn⟩ := (hmem c).mp hc
+    rcases hF.parentOK c hc with h0 | ⟨p, hp', hpn, hip⟩
+    · exact Or.inl h0
+    · exact Or.inr ⟨p, (hmem p).mpr ⟨hp', by rw [hpn]; exact hnochild c hc⟩, hpn, hip⟩
+  · exact ranked_sub hF.ranked (fun c hc => ((hmem c).mp hc).1)
+  · intro p c
+    simp only [delState, List.mem_filter, Bool.and_eq_true, bne_iff_ne, ne_eq, Prod.mk.injEq]
+    constructor
+    · rintro ⟨hk, hne, hpne⟩
+      obtain ⟨c', hc', h1, h2⟩ := (hF.kidsOK p c).mp hk
+      refine ⟨c', ⟨hc', ?_⟩, h1, h2⟩
+      intro e
+      have : c' = o := hu c' hc' o ho (e.trans hon.symm)
+      apply hne; subst this; exact ⟨h2.symm, h1.symm.trans e⟩
+    · rintro ⟨c', ⟨hc', hcn⟩, h1, h2⟩
+      refine ⟨(hF.kidsOK p c).mpr ⟨c', hc', h1, h2⟩, ?_, ?_⟩
+      · rintro ⟨_, e⟩; exact hcn (h1.trans e)
+      · intro e; exact hnochild c' hc' (h2.trans e)
+
 end KoordVerif.C15
